@@ -38,6 +38,10 @@ func main() {
 		harness.SeedRunMain(args[1], args[2])
 		return
 	}
+	if len(args) == 2 && args[0] == "constructprobe" {
+		harness.ConstructProbeMain(args[1])
+		return
+	}
 	if len(args) == 3 && args[0] == "histdigest" {
 		harness.HistDigestMain(args[1], args[2])
 		return
